@@ -46,7 +46,7 @@ if HR is not None:
     for fn, ids in HR.REGISTRY:
         reg(fn, *ids)
 
-for _modname in ('rules_hir2', 'rules_hir3', 'rules_hir4'):
+for _modname in ('rules_hir2', 'rules_hir3', 'rules_hir4', 'rules_hir5'):
     try:
         _m = __import__('vflib.' + _modname, fromlist=['REGISTRY'])
     except ImportError:
